@@ -149,19 +149,29 @@ func (n *node[T]) sort() {
 
 // 查找路由项，不存在返回 nil
 func (n *node[T]) find(pattern string) *node[T] {
+	// 同一父节点下可能存在内容相同但类型不同的节点（参考 removeNode 的说明），
+	// 优先返回包含处理函数的节点，否则可能找到的只是另一个类型下作为前缀存在的空节点。
+	var empty *node[T]
 	for _, child := range n.children {
+		var nn *node[T]
 		if child.segment.Value == pattern {
-			return child
+			nn = child
+		} else if strings.HasPrefix(pattern, child.segment.Value) {
+			nn = child.find(pattern[len(child.segment.Value):])
 		}
 
-		if strings.HasPrefix(pattern, child.segment.Value) {
-			if nn := child.find(pattern[len(child.segment.Value):]); nn != nil {
-				return nn
-			}
+		if nn == nil {
+			continue
+		}
+		if nn.size() > 0 {
+			return nn
+		}
+		if empty == nil {
+			empty = nn
 		}
 	}
 
-	return nil
+	return empty
 }
 
 // 清除路由项
